@@ -8,7 +8,7 @@ COQ = os.path.join(VERIF, 'coq')
 CACHE = os.path.join(VERIF, '.cache')
 OUT = os.path.join(VERIF, 'out')
 GUARD = 'LIBMODULE_VERIF'
-NPROC = min(16, os.cpu_count() or 4)
+NPROC = int(os.environ.get('VERIF_NPROC', min(16, os.cpu_count() or 4)))
 
 INCS = ['core', 'core/public', 'core/fs', 'core/poll', 'utils', 'structs', 'structs/public',
         'mem', 'mem/public', 'thpool', 'thpool/public']
@@ -72,6 +72,12 @@ def regen_consts():
     if old != r.stdout:
         open(dst, 'w').write(r.stdout)
     return True, ''
+
+def regen_guards():
+    """T2: rewrite coq/Guards.v (guard macros of every public core function, read from the tree) if it changed"""
+    import guards_scan
+    ok, msg, _ = guards_scan.generate(os.path.join(COQ, 'Guards.v'), REPO)
+    return ok, msg
 
 # ---------------------------------------------------------------- Coq
 def coq_makefile():
